@@ -85,6 +85,9 @@ AsymBase == [
   ed25519b |-> [kty |-> "OKP", bits |-> 256, crv |-> "Ed25519"],
   ed448a |-> [kty |-> "OKP", bits |-> 456, crv |-> "Ed448"],
   ed448b |-> [kty |-> "OKP", bits |-> 456, crv |-> "Ed448"],
+  \* OKP keys whose x or d (octet strings, not integers) begins with a zero octet
+  ed25519zx |-> [kty |-> "OKP", bits |-> 256, crv |-> "Ed25519"], ed25519zd |-> [kty |-> "OKP", bits |-> 256, crv |-> "Ed25519"],
+  ed448zx |-> [kty |-> "OKP", bits |-> 456, crv |-> "Ed448"], ed448zd |-> [kty |-> "OKP", bits |-> 456, crv |-> "Ed448"],
   \* curves that are not JOSE curves but that OpenSSL knows by name (sizes 224, 256, 384, 512)
   bp256a |-> [kty |-> "EC", bits |-> 256, crv |-> "brainpoolP256r1"], bp384a |-> [kty |-> "EC", bits |-> 384, crv |-> "brainpoolP384r1"],
   bp512a |-> [kty |-> "EC", bits |-> 512, crv |-> "brainpoolP512r1"], p224a |-> [kty |-> "EC", bits |-> 224, crv |-> "secp224r1"],
